@@ -223,6 +223,44 @@ pub fn measure_pulse(spectrum: &[f64], stage: usize, use_log_gain: bool, rate: u
     }
 }
 
+/// Response to a pulse that falls `k` samples before the END of a frame and rings across the frame
+/// boundary into the next call: two frames of the same stationary spectrum, F0 slightly above 20 Hz
+/// so that the period is `floor(rate/20) - s - 0.5` samples (not a multiple of anything), frame
+/// period = index of the second pulse + 1 + k. Returns the normalised response from the second pulse
+/// up to the third one (about one period, most of it rendered by the second call).
+#[allow(clippy::too_many_arguments)]
+pub fn measure_pulse_tail(spectrum: &[f64], stage: usize, use_log_gain: bool, rate: usize, alpha: f64, beta: f64, s: usize, k: usize) -> Vec<f64> {
+    // strictly below the period of the 20 Hz limit (a longer period would be clamped to it)
+    let pt = period20(rate).floor() - 1.0 - s as f64 + 0.5;
+    let lf0 = (rate as f64 / pt).ln();
+    // the period as the vocoder computes it
+    let p = rate as f64 / lf0.exp();
+    // pitch counter: starts at p, +1 per sample, fires (and -= p) when >= p
+    let pulses_upto = |n_total: usize| -> Vec<usize> {
+        let mut counter = p;
+        let mut v = Vec::new();
+        for n in 0..n_total {
+            counter += 1.0;
+            if counter >= p {
+                counter -= p;
+                v.push(n);
+            }
+        }
+        v
+    };
+    let first = pulses_upto(3 * pt as usize);
+    let j2 = first[1];
+    let fperiod = j2 + 1 + k;
+    let mut v = Vocoder::new(spectrum.len(), 0, stage, use_log_gain, rate, alpha, beta, 1.0, fperiod);
+    let mut out = vec![0.0; 2 * fperiod];
+    let (a, b) = out.split_at_mut(fperiod);
+    v.synthesize(lf0, spectrum, &[], a);
+    v.synthesize(lf0, spectrum, &[], b);
+    let j3 = first.get(2).copied().unwrap_or(2 * fperiod).min(2 * fperiod);
+    let amp = p.sqrt();
+    out[j2..j3].iter().map(|x| x / amp).collect()
+}
+
 /// A vocoder of the same shape that is used for one noisy frame and dropped while its filter is
 /// still ringing: whatever the library keeps across vocoder objects (pools, thread-locals) now holds
 /// the state of a filter that was NOT at rest.
